@@ -39,9 +39,8 @@ func c19(c *evid.Ctx) {
 	for run := 0; run < runs && c.NumViolations() < 20; run++ {
 		c19run(c, r, run)
 	}
-	if c.Counter("inbound datagrams from blocked sources judged") == 0 || c.Counter("outbound attempts towards blocked addresses judged") == 0 {
-		c.Inconclusive("a path class was never exercised")
-	}
+	c.Floor("inbound datagrams from blocked sources judged", 1)
+	c.Floor("outbound attempts towards blocked addresses judged", 1)
 }
 
 func c19run(c *evid.Ctx, r *gen.Rand, run int) {
